@@ -89,6 +89,9 @@ def c17(chk):
     path = vlib.write_json(os.path.join(vlib.WORK, "C17_tables.json"), tables)
     summ = harness("replay-codegen", table=path)
     replay_check(chk, "codegen", summ)
+    # a status (or an answer) passed along by a handler that asked a third peer: code, message and headers
+    # arrive intact, exactly the handler's headers travel, and the caller attributes it to the peer it asked
+    replay_check(chk, "codegen-relay", harness("codegen-relay"))
     for k, v in tables.items():
         for r in v:
             chk.distinct.add(json.dumps(r, sort_keys=True))
@@ -142,6 +145,9 @@ def c01(chk):
     s4["args"] = {"mode": "mix"}
     trace_check(chk, "AnemoRpcTrace.tla", "AnemoRpcTrace.cfg", s4, label="extlocal")
     sample_events(chk, s4, ("app.start",), n=1)
+    # ... also on the typed path, when the message names somebody else: a handler relays the status / answer it
+    # got from a third peer; the typed caller attributes it to the authenticated end of its own connection
+    replay_check(chk, "codegen-relay", harness("codegen-relay"))
     spec_mutant(chk, "no_signature_check", "AnemoIdentity.tla", "AnemoIdentity.cfg",
                 [("AnemoIdentity.tla", 'SigOk(c, proof) == c.alg = "ed25519" /\\ proof = c.subj', 'SigOk(c, proof) == c.alg = "ed25519"')],
                 workers=1)
